@@ -371,7 +371,7 @@ func c17Run(c *mc.Ctx) {
 			for _, ch := range chunks {
 				for _, wl := range []bool{false, true} {
 					for e := range termErrs { // innermost: consecutive cases differ in the error value (stale pooled state shows)
-						c17StreamOne(c, c17Stream{Method: v.method, Type: t, Cut: cut, Env: EnvCfg{Chunk: ch, ErrWithLast: wl, Err: e}}, enc)
+						c17StreamOne(c, c17Stream{Method: v.method, Type: t, Cut: cut, Env: EnvCfg{Chunk: ch, ErrWithLast: wl, Err: e, AfterErr: (cut + e) % 2}}, enc)
 					}
 				}
 			}
